@@ -271,7 +271,20 @@ func (r *remote) exited() bool {
 
 // ---------------------------------------------------------------------------
 
+var infoCache = map[string][]byte{}
+var truthCache = map[int64][]byte{}
+
 func buildInfo(g wgeom, truth []byte, name string, padTo int) []byte {
+	ck := fmt.Sprint(g, name, padTo)
+	if b, ok := infoCache[ck]; ok {
+		return b
+	}
+	b := buildInfo1(g, truth, name, padTo)
+	infoCache[ck] = b
+	return b
+}
+
+func buildInfo1(g wgeom, truth []byte, name string, padTo int) []byte {
 	var pieces []byte
 	for i := 0; i < g.npieces(); i++ {
 		s := int64(i) * int64(g.PSize)
@@ -323,9 +336,14 @@ func geomByName(name string) wgeom {
 func newWorld(cfg worldCfg) *World {
 	g := geomByName(cfg.Geom)
 	w := &World{cfg: cfg, g: g, consumers: map[string]int{}}
-	w.truth = make([]byte, g.Length)
-	for i := range w.truth {
-		w.truth[i] = wtruthByte(int64(i))
+	if tr, ok := truthCache[g.Length]; ok {
+		w.truth = tr
+	} else {
+		w.truth = make([]byte, g.Length)
+		for i := range w.truth {
+			w.truth[i] = wtruthByte(int64(i))
+		}
+		truthCache[g.Length] = w.truth
 	}
 	peer.VerifReset()
 	config.SetIdleRate(uint32(cfg.IdleRate))
@@ -981,7 +999,26 @@ func (w *World) apply(tr string) bool {
 		}
 		b := make([]byte, len(f[2])/2)
 		fmt.Sscanf(f[2], "%x", &b)
+		a0 := allocNowT()
 		r.sendRaw(b)
+		w.transitions++
+		w.settle()
+		// C05: memory in proportion to the message, not to its numeric fields
+		// (generous: 64 x frame + 4 MiB; the violations sought are 3-6 orders
+		// of magnitude above the line)
+		if d := allocNowT() - a0; d > 64*uint64(len(b))+4<<20 {
+			kind := fmt.Sprintf("id%d", b[4])
+			if len(b) > 5 && b[4] == 20 {
+				kind = fmt.Sprintf("ext%d", b[5])
+			}
+			meta := "known"
+			if w.cfg.Magnet && !w.t.InfoComplete() {
+				meta = "unknown"
+			}
+			w.problem("C05", "C05/alloc/"+kind+"/metadata-"+meta, "handling a %d-byte frame (%x) allocated %d bytes", len(b), truncb(b), d)
+		}
+		w.checkOthersAlive(r)
+		return true
 	// --- environment -------------------------------------------------------
 	case "adv": // adv:<seconds>
 		time.Sleep(time.Duration(arg(1)) * time.Second)
@@ -1044,6 +1081,18 @@ func (w *World) apply(tr string) bool {
 	w.transitions++
 	w.settle()
 	return true
+}
+
+// checkOthersAlive: whatever remote r sent, at worst r itself is disconnected.
+func (w *World) checkOthersAlive(r *remote) {
+	if w.loopDead {
+		return
+	}
+	for _, o := range w.remotes {
+		if o != r && !o.closed && o.exited() {
+			w.problem("C05", "C05/other-peer-dropped", "after a message from remote %d, the connection to remote %d was dropped", r.idx, o.idx)
+		}
+	}
 }
 
 // revoked notes that a permission (advertisement, unchoke) was just withdrawn:
